@@ -293,6 +293,23 @@ def _explore(out, tier, seed, facts, replay):
                               {"metric": c, "obs": o, "fcst": f, "agg": use})
         if len(samples) < 3 and len(o) > 2:
             samples.append({"obs": o, "fcst": f, "agg": a})
+    # no valid pair at all (what every empty slice looks like: get_scores delivers the single NaN): NaN for every metric and
+    # EVERY aggregator, never an exception and never a number
+    for c in CLASSES:
+        m = metrics[c]
+        for a_ in (AGGS if m.supports_aggregator else ["mean"]):
+            m.aggregator = aggs[a_]
+            for o_, f_ in (([NAN], [NAN]), ([NAN, 1.0], [2.0, NAN]), ([NAN, NAN, NAN], [1.0, 2.0, 3.0])):
+                nf += 1
+                try:
+                    g_ = float(m.compute_from_obs_fcst(np.array(o_), np.array(f_)))
+                except Exception as e:
+                    out.violation("no-valid-pair-exception:%s" % c, "%s with -agg %s on pairs without a valid member (obs=%r, fcst=%r) raises %s: %s"
+                                  % (c, a_, o_, f_, type(e).__name__, e), {"metric": c, "obs": [repr(x) for x in o_], "fcst": [repr(x) for x in f_], "agg": a_})
+                    continue
+                if not math.isnan(g_):
+                    out.violation("no-valid-pair-number:%s" % c, "%s with -agg %s on pairs without a valid member (obs=%r, fcst=%r) returns %r"
+                                  % (c, a_, o_, f_, g_), {"metric": c, "obs": [repr(x) for x in o_], "fcst": [repr(x) for x in f_], "agg": a_})
     # perfect forecast attains the declared perfect score; no forecast is better (default aggregator)
     skill = [n for n, cls in verif.metric.get_all_obs_fcst_based() if cls.perfect_score is not None and n not in ("Ef", "ObsStdDev", "FcstStdDev")]
     for (o, f) in vecs:
